@@ -154,7 +154,9 @@ def build_event(v):
         cls = K.event_class(cls_kind, v["typed"])
         typed = [("f_" + k, k) for k in sorted(v["typed"])]
         for f, k in typed:
-            kw[f] = K.value_of(K.TYPED_KINDS, k, rep)
+            val = K.value_of(K.TYPED_KINDS, k, rep)
+            if val is not K.UNSET:
+                kw[f] = val
     else:
         typed = list(FIXED_TYPED[cls_kind])
         names = ["s", "", "step_é", "a_rather_long_step_name_0123456789"]
